@@ -1,6 +1,7 @@
 (* Properties_C16.v — C16: sliding-window statistics and ring buffers reflect exactly the last W items. *)
-From Coq Require Import ZArith List Bool Arith Reals Lia.
-From Romea Require Import Num NumR OnlineStatsModel OnlineStatsProofs.
+From Coq Require Import ZArith List Bool Arith Reals Lia Lra.
+From Romea Require Import Num NumR OnlineStatsModel OnlineStatsProofs StatsSem SrcTieC16 GridMapFloat OnlineStatsFloat.
+From Romea.gen Require Import SrcStats.
 Import ListNotations.
 
 (* For every window size W >= 1 and every history of updates/resets (samples already truncated to the
@@ -54,6 +55,272 @@ Theorem C16_ring_kth_most_recent : forall (A : Type) cap (h : list (rop A)) k,
 Proof. exact @ring_kth. Qed.
 Print Assumptions C16_ring_kth_most_recent.
 
+(* ==== SYNTACTIC SOURCE TIE ====
+   gen/SrcStats.v is regenerated on every run by translate/tr_C16_stats.py from the clang AST of OnlineAverage.cpp,
+   OnlineVariance.cpp and RingOfEigenVector.hpp: one Gallina state transformer per member function, on a record of the
+   C++ data members, with the wrap-around of size_t / long long / int explicit (StatsSem.v).  The theorems below say that
+   those transformers ARE the transitions of OnlineStatsModel.v (member by member), and that therefore the statements of
+   the property hold of the code as written, for every history.  N is any numeric dictionary in which the literal 1
+   converts to one and the product commutes (the reals, binary64, ...): these are the only two laws the tie needs — the
+   first because the source writes `1 / averagePrecision` with an int literal, the second so that a source that swaps
+   the operands of a floating-point product is still recognised as the same function. *)
+
+(* OnlineAverage, member by member: constructors (incl. multiplier_ = static_cast<int>(1 / averagePrecision)),
+   setWindowSize, reset, isAvailable, getAverage preserve / read the relation to the model state *)
+Theorem C16_source_tie_average_members : forall (T : Type) (N : NumOps T), nofZ N 1 = n_one N ->
+  (forall prec W, avg_rel N (src_avg_ctor2 N prec (Z.of_nat W)) (o_init W) /\
+                  avg_multiplier_ (src_avg_ctor2 N prec (Z.of_nat W)) = o_multiplier N prec) /\
+  (forall prec W, src_avg_setWindowSize (src_avg_ctor1 N prec) W = src_avg_ctor2 N prec W) /\
+  (forall c m, avg_rel N c m -> avg_rel N (src_avg_reset c) (o_reset m) /\ avg_multiplier_ (src_avg_reset c) = avg_multiplier_ c) /\
+  (forall c m, avg_rel N c m -> src_avg_isAvailable c = o_available m) /\
+  (forall c m, avg_rel N c m -> src_avg_getAverage c = o_average N (avg_multiplier_ c) m).
+Proof. exact avg_members_tie. Qed.
+
+(* OnlineAverage::update(value) = the model's update with the truncated sample, as long as the size_t index and the
+   long long sums stay inside their types *)
+Theorem C16_source_tie_average_update : forall (T : Type) (N : NumOps T), (forall a b : T, nmul N a b = nmul N b a) ->
+  forall c m (v : T), avg_rel N c m ->
+  let x := o_trunc N (avg_multiplier_ c) v in
+  (0 < o_W m)%nat -> (Z.of_nat (o_W m) < two64)%Z -> (o_index m < o_W m)%nat ->
+  in_s64 (o_sum m + x) -> in_s64 (o_sum (o_update m x)) ->
+  avg_rel N (src_avg_update N c v) (o_update m x) /\ avg_multiplier_ (src_avg_update N c v) = avg_multiplier_ c.
+Proof. exact @tie_avg_update. Qed.
+
+(* OnlineVariance, member by member (constructor incl. squaredMultiplier_ computed in long long, reset, the inherited
+   isAvailable / getAverage, getVariance) *)
+Theorem C16_source_tie_variance_members : forall (T : Type) (N : NumOps T), nofZ N 1 = n_one N ->
+  (forall prec W, in_s32 (o_multiplier N prec) ->
+                  var_rel N (src_var_ctor2 N prec (Z.of_nat W)) (o_init W) /\
+                  var_multiplier_ (src_var_ctor2 N prec (Z.of_nat W)) = o_multiplier N prec) /\
+  (forall prec W, src_var_setWindowSize (src_var_ctor1 N prec) W = src_var_ctor2 N prec W) /\
+  (forall c m, var_rel N c m -> var_rel N (src_var_reset c) (o_reset m) /\ var_multiplier_ (src_var_reset c) = var_multiplier_ c) /\
+  (forall c m, var_rel N c m -> src_var_isAvailable c = o_available m) /\
+  (forall c m, var_rel N c m -> src_var_getAverage c = o_average N (var_multiplier_ c) m) /\
+  (forall c m, var_rel N c m -> src_var_getVariance c = o_variance N (var_multiplier_ c) m).
+Proof. exact var_members_tie. Qed.
+
+Theorem C16_source_tie_variance_update : forall (T : Type) (N : NumOps T), (forall a b : T, nmul N a b = nmul N b a) ->
+  forall c m (v : T), var_rel N c m ->
+  let x := o_trunc N (var_multiplier_ c) v in
+  (0 < o_W m)%nat -> (Z.of_nat (o_W m) < two64)%Z -> (o_index m < o_W m)%nat -> length (o_sq m) = length (o_data m) ->
+  in_s64 (x * x) -> in_s64 (o_sum m + x) -> in_s64 (o_sumsq m + x * x) ->
+  in_s64 (o_sum (o_update m x)) -> in_s64 (o_sumsq (o_update m x)) ->
+  var_rel N (src_var_update N c v) (o_update m x) /\ var_multiplier_ (src_var_update N c v) = var_multiplier_ c.
+Proof. exact @tie_var_update. Qed.
+
+(* RingOfEigenVector, member by member, for every object (size_t arithmetic with both wraps of operator[]) *)
+Theorem C16_source_tie_ring_members : forall (A : Type),
+  (forall cap, ring_abs (A:=A) (src_ring_ctor (Z.of_nat cap)) = r_init cap) /\
+  (forall (c : @ring_state A) x, (0 <= ring_ringSize_ c)%Z ->
+     ring_abs (src_ring_append c x) = r_append (ring_abs c) x /\ ring_ringSize_ (src_ring_append c x) = ring_ringSize_ c) /\
+  (forall (c : @ring_state A) n, src_ring_get c (Z.of_nat n) = r_get (ring_abs c) n) /\
+  (forall (c : @ring_state A), ring_abs (src_ring_clear c) = r_clear (ring_abs c)) /\
+  (forall (c : @ring_state A), src_ring_size c = Z.of_nat (r_size (ring_abs c))).
+Proof. exact ring_members_tie. Qed.
+
+(* The property, about the OnlineAverage code as written: for every window 1..64, every precision and every history of
+   update/reset whose truncated samples are bounded by 1e8 (so that nothing overflows — proved along the way), the
+   stored window is the last min(n,W) truncated samples since the last reset, sumOfData_ is exactly their sum,
+   isAvailable() iff W samples since the last reset, and getAverage() is that sum divided by multiplier * count (NaN
+   before the first sample) *)
+Theorem C16_source_tie_average_history : forall (T : Type) (N : NumOps T), nofZ N 1 = n_one N ->
+  (forall a b : T, nmul N a b = nmul N b a) ->
+  forall prec W (ops : list (oop T)), (0 < W)%nat -> (W <= 64)%nat ->
+  let mult := o_multiplier N prec in
+  ops_bounded N mult ops ->
+  let c := fold_left (src_avg_step N) ops (src_avg_ctor2 N prec (Z.of_nat W)) in
+  let xs := since_reset (map (trunc_op N mult) ops) [] in
+  ring_logical W (avg_data_ c) (Z.to_nat (avg_index_ c)) = lastn W xs /\
+  vec_size (avg_data_ c) = Z.of_nat (Nat.min W (length xs)) /\
+  avg_sumOfData_ c = zsum (lastn W xs) /\
+  (src_avg_isAvailable c = true <-> (W <= length xs)%nat) /\
+  src_avg_getAverage c =
+    match lastn W xs with
+    | [] => None
+    | _ => Some (ndiv N (nofZ N (zsum (lastn W xs))) (nmul N (nofZ N mult) (nofZ N (Z.of_nat (Nat.min W (length xs))))))
+    end.
+Proof. exact @avg_code_window. Qed.
+
+(* the same for the OnlineVariance code; getAverage / getVariance are the model's outputs on the model state reached by
+   the same (truncated) history, and the stored samples are the model's *)
+Theorem C16_source_tie_variance_history : forall (T : Type) (N : NumOps T), nofZ N 1 = n_one N ->
+  (forall a b : T, nmul N a b = nmul N b a) ->
+  forall prec W (ops : list (oop T)), (0 < W)%nat -> (W <= 64)%nat ->
+  let mult := o_multiplier N prec in
+  in_s32 mult -> ops_bounded N mult ops ->
+  let c := fold_left (src_var_step N) ops (src_var_ctor2 N prec (Z.of_nat W)) in
+  let s := fold_left i_step (map (trunc_op N mult) ops) (o_init W) in
+  let xs := since_reset (map (trunc_op N mult) ops) [] in
+  ring_logical W (var_data_ c) (Z.to_nat (var_index_ c)) = lastn W xs /\
+  ring_logical W (var_squaredData_ c) (Z.to_nat (var_index_ c)) = map (fun x => (x * x)%Z) (lastn W xs) /\
+  var_sumOfData_ c = zsum (lastn W xs) /\
+  var_sumOfSquaredData_ c = zsum (map (fun x => (x * x)%Z) (lastn W xs)) /\
+  (src_var_isAvailable c = true <-> (W <= length xs)%nat) /\
+  src_var_getAverage c = o_average N mult s /\ src_var_getVariance c = o_variance N mult s /\
+  var_data_ c = o_data s.
+Proof. exact @var_code_window. Qed.
+
+(* no partial C++ operation is used outside its domain (`% windowSize_` with windowSize_ = W > 0, `data_[index_]` only
+   with index_ < data_.size()), after any history: the totalising conventions of StatsSem.v are never exercised *)
+Theorem C16_source_tie_accesses_defined : forall (T : Type) (N : NumOps T), nofZ N 1 = n_one N ->
+  (forall a b : T, nmul N a b = nmul N b a) ->
+  forall prec W (ops : list (oop T)), (0 < W)%nat -> (W <= 64)%nat ->
+  let mult := o_multiplier N prec in
+  ops_bounded N mult ops ->
+  let c := fold_left (src_avg_step N) ops (src_avg_ctor2 N prec (Z.of_nat W)) in
+  (avg_windowSize_ c = Z.of_nat W /\ 0 <= avg_index_ c < Z.of_nat W /\
+   vec_size (avg_data_ c) <= Z.of_nat W /\
+   (vec_size (avg_data_ c) = avg_windowSize_ c -> avg_index_ c < vec_size (avg_data_ c)))%Z.
+Proof. exact @avg_code_defined. Qed.
+
+Theorem C16_source_tie_variance_accesses_defined : forall (T : Type) (N : NumOps T), nofZ N 1 = n_one N ->
+  (forall a b : T, nmul N a b = nmul N b a) ->
+  forall prec W (ops : list (oop T)), (0 < W)%nat -> (W <= 64)%nat ->
+  let mult := o_multiplier N prec in
+  in_s32 mult -> ops_bounded N mult ops ->
+  let c := fold_left (src_var_step N) ops (src_var_ctor2 N prec (Z.of_nat W)) in
+  (var_windowSize_ c = Z.of_nat W /\ 0 <= var_index_ c < Z.of_nat W /\
+   vec_size (var_squaredData_ c) = vec_size (var_data_ c) /\ vec_size (var_data_ c) <= Z.of_nat W /\
+   (vec_size (var_data_ c) = var_windowSize_ c -> var_index_ c < vec_size (var_data_ c)))%Z.
+Proof. exact @var_code_defined. Qed.
+
+(* over the reals: the code's getAverage() is the mean of the last min(n,W) truncated samples ... *)
+Theorem C16_source_tie_average_is_mean : forall prec W (ops : list (oop R)), (0 < W)%nat -> (W <= 64)%nat ->
+  let mult := o_multiplier ROps prec in
+  (0 < mult)%Z -> ops_bounded ROps mult ops ->
+  let c := fold_left (src_avg_step ROps) ops (src_avg_ctor2 ROps prec (Z.of_nat W)) in
+  let L := lastn W (since_reset (map (trunc_op ROps mult) ops) []) in
+  L <> [] ->
+  src_avg_getAverage c = Some (rsum (map (fun z => IZR z / IZR mult) L) / INR (length L))%R.
+Proof. exact avg_code_real. Qed.
+
+(* ... and its getVariance() the unbiased sample variance of the last W truncated samples once the window is full *)
+Theorem C16_source_tie_variance_is_unbiased : forall prec W (ops : list (oop R)), (2 <= W)%nat -> (W <= 64)%nat ->
+  let mult := o_multiplier ROps prec in
+  (0 < mult)%Z -> in_s32 mult -> ops_bounded ROps mult ops ->
+  let c := fold_left (src_var_step ROps) ops (src_var_ctor2 ROps prec (Z.of_nat W)) in
+  let xs := since_reset (map (trunc_op ROps mult) ops) [] in
+  (W <= length xs)%nat ->
+  let ys := map (fun z => IZR z / IZR mult)%R (lastn W xs) in
+  let mean := (rsum ys / INR (length ys))%R in
+  src_var_getVariance c = Some (rsum (map (fun y => (y - mean) * (y - mean))%R ys) / (INR (length ys) - 1))%R.
+Proof. exact var_code_real. Qed.
+
+(* the ring-buffer statement about the RingOfEigenVector code as written: every capacity, every history of
+   append / clear: size() = min(n, capacity) and operator[](k) is the k-th most recent item *)
+Theorem C16_source_tie_ring_history : forall (A : Type) cap (h : list (rop A)) k,
+  (0 < cap)%nat -> (2 * Z.of_nat cap <= two64)%Z ->
+  let c := fold_left src_ring_step h (src_ring_ctor (Z.of_nat cap)) in
+  let xs := since_clear h [] in
+  src_ring_size c = Z.of_nat (Nat.min cap (length xs)) /\
+  ((Z.of_nat k < src_ring_size c)%Z -> src_ring_get c (Z.of_nat k) = nth_error (rev xs) k).
+Proof. exact @ring_code_kth. Qed.
+
+(* ==== FLOATING POINT (IEEE-754 binary64, Flocq; coq/OnlineStatsFloat.v) ====
+   B64Ops (GridMapFloat.v) rounds to nearest-even after every + - * / and every integer->double conversion; rnd64 is that
+   rounding, u64 = 2^-53 the unit roundoff, eta64 = 2^-1075. *)
+
+(* multiplier_ = static_cast<int>(1 / averagePrecision) for a precision in [1e-6, 1] (lower bound 2/2000001, so that
+   the double nearest to 1e-6 — slightly below 10^-6 — is covered) *)
+Theorem C16_average_binary64_multiplier : forall p : R, (2 / 2000001 <= p <= 1)%R ->
+  (1 <= o_multiplier B64Ops p <= 1000000)%Z.
+Proof. exact multiplier_b64. Qed.
+
+(* the truncated sample static_cast<long long>(value * multiplier_): bounded by 1e8 when |value * multiplier| is, and
+   within one unit plus one rounding of the product *)
+Theorem C16_average_binary64_truncated_sample : forall (m : Z) (v : R), (Z.abs m < 2 ^ 53)%Z ->
+  ((Rabs (v * IZR m) <= 100000000)%R -> (Z.abs (o_trunc B64Ops m v) <= 100000000)%Z) /\
+  (Rabs (IZR (o_trunc B64Ops m v) - v * IZR m) < 1 + u64 * Rabs (v * IZR m) + eta64)%R.
+Proof. exact trunc_b64_both. Qed.
+
+(* (a) exact conversions: after every history |sumOfData_| < 2^53 and double(sumOfData_), double(multiplier_),
+   double(data_.size()) and double(multiplier_) * data_.size() are computed without any rounding *)
+Theorem C16_average_binary64_conversions_exact : forall W h (m : Z), (0 < W)%nat -> (W <= 64)%nat -> (0 < m <= 1000000)%Z ->
+  Forall (fun x => (Z.abs x <= 100000000)%Z) (since_reset h []) ->
+  let s := fold_left i_step h (o_init W) in
+  let n := Z.of_nat (length (o_data s)) in
+  (Z.abs (o_sum s) < 2 ^ 53)%Z /\
+  nofZ B64Ops (o_sum s) = IZR (o_sum s) /\ nofZ B64Ops m = IZR m /\ nofZ B64Ops n = IZR n /\
+  nmul B64Ops (nofZ B64Ops m) (nofZ B64Ops n) = IZR (m * n).
+Proof. exact conversions_exact_b64. Qed.
+
+(* NO DRIFT, in binary64: for every window 1..64, every multiplier 1..10^6 and every history of updates and resets with
+   truncated samples bounded by 1e8, sumOfData_, multiplier_, data_.size() and multiplier_ * data_.size() convert /
+   multiply exactly, so the reported average is the exact mean of the last min(n,W) truncated samples since the last
+   reset rounded ONCE: relative error <= 2^-53, independent of the length of the history *)
+Theorem C16_average_binary64_no_drift : forall W h (m : Z), (0 < W)%nat -> (W <= 64)%nat -> (0 < m <= 1000000)%Z ->
+  Forall (fun x => (Z.abs x <= 100000000)%Z) (since_reset h []) ->
+  let s := fold_left i_step h (o_init W) in
+  let L := lastn W (since_reset h []) in
+  L <> [] ->
+  o_average B64Ops m s = Some (rnd64 (zmean m L)) /\
+  (Rabs (rnd64 (zmean m L) - zmean m L) <= u64 * Rabs (zmean m L))%R.
+Proof. exact average_b64_history. Qed.
+
+(* the same about the OnlineAverage code as written (gen/SrcStats.v run at the binary64 dictionary), with hypotheses on
+   the inputs only: precision in [1e-6, 1], window 1..64, |value * multiplier| <= 1e8 for every value fed *)
+Theorem C16_average_binary64_code : forall (p : R) W (ops : list (oop R)), (0 < W)%nat -> (W <= 64)%nat ->
+  (2 / 2000001 <= p <= 1)%R ->
+  let mult := o_multiplier B64Ops p in
+  values_bounded mult ops ->
+  let c := fold_left (src_avg_step B64Ops) ops (src_avg_ctor2 B64Ops p (Z.of_nat W)) in
+  let L := lastn W (since_reset (map (trunc_op B64Ops mult) ops) []) in
+  (1 <= mult <= 1000000)%Z /\
+  (L = [] -> src_avg_getAverage c = None) /\
+  (L <> [] -> src_avg_getAverage c = Some (rnd64 (zmean mult L)) /\
+              (Rabs (rnd64 (zmean mult L) - zmean mult L) <= u64 * Rabs (zmean mult L))%R).
+Proof. exact average_b64_code. Qed.
+
+(* the variance in binary64 (seven roundings): once the window (2 <= W <= 64) is full the reported variance is within
+   2^-53 (7 A + 9 B)/(W-1) + 3*2^-1075 of the exact unbiased sample variance zvar of the last W truncated samples, with
+   A = sum y_i^2 (zsqsum) and B = W mean^2 — for every history, independent of its length.  (A and B, not the variance
+   itself, scale the error: the textbook cancellation of the sum-of-squares formula; the oracle allows the same shape.) *)
+Theorem C16_average_binary64_variance_error : forall W h (m : Z), (2 <= W)%nat -> (W <= 64)%nat -> (0 < m <= 1000000)%Z ->
+  Forall (fun x => (Z.abs x <= 100000000)%Z) (since_reset h []) ->
+  (W <= length (since_reset h []))%nat ->
+  let s := fold_left i_step h (o_init W) in
+  let L := lastn W (since_reset h []) in
+  exists v, o_variance B64Ops m s = Some v /\
+    (Rabs (v - zvar m L) <= u64 * (7 * zsqsum m L + 9 * (INR W * zmean m L * zmean m L)) / (INR W - 1) + 3 * eta64)%R.
+Proof. exact variance_b64_history. Qed.
+
+(* and about the OnlineVariance code as written, hypotheses on the inputs only *)
+Theorem C16_average_binary64_variance_code : forall (p : R) W (ops : list (oop R)), (2 <= W)%nat -> (W <= 64)%nat ->
+  (2 / 2000001 <= p <= 1)%R ->
+  let mult := o_multiplier B64Ops p in
+  values_bounded mult ops ->
+  let c := fold_left (src_var_step B64Ops) ops (src_var_ctor2 B64Ops p (Z.of_nat W)) in
+  let xs := since_reset (map (trunc_op B64Ops mult) ops) [] in
+  let L := lastn W xs in
+  (W <= length xs)%nat ->
+  exists v, src_var_getVariance c = Some v /\
+    (Rabs (v - zvar mult L) <= u64 * (7 * zsqsum mult L + 9 * (INR W * zmean mult L * zmean mult L)) / (INR W - 1) + 3 * eta64)%R.
+Proof. exact variance_b64_code. Qed.
+
+(* Print Assumptions, grouped (one traversal per group instead of one per theorem: the source-tie theorems that do not
+   mention the reals are closed under the global context; the others depend on the standard assumptions of the real numbers only) *)
+Definition C16_source_tie_closed_group := (@C16_source_tie_average_members,
+  @C16_source_tie_average_update,
+  @C16_source_tie_variance_members,
+  @C16_source_tie_variance_update,
+  @C16_source_tie_ring_members,
+  @C16_source_tie_average_history,
+  @C16_source_tie_variance_history,
+  @C16_source_tie_accesses_defined,
+  @C16_source_tie_variance_accesses_defined,
+  @C16_source_tie_ring_history).
+Print Assumptions C16_source_tie_closed_group.
+Definition C16_real_and_binary64_group := (@C16_source_tie_average_is_mean,
+  @C16_source_tie_variance_is_unbiased,
+  @C16_average_binary64_multiplier,
+  @C16_average_binary64_truncated_sample,
+  @C16_average_binary64_conversions_exact,
+  @C16_average_binary64_no_drift,
+  @C16_average_binary64_code,
+  @C16_average_binary64_variance_error,
+  @C16_average_binary64_variance_code).
+Print Assumptions C16_real_and_binary64_group.
+
 (* ---- the defects that were repaired (models of the code before the fix:, kept as documentation) ---- *)
 (* reset() kept index_: W = 3, history 100, reset, 1, 2, 3, 10 -> window {1,3,10}, not {2,3,10} *)
 Theorem C16_reset_keeps_index_refuted :
@@ -89,3 +356,24 @@ Example C16_ex_ring :
   let s := fold_left r_step [RAppend 1; RAppend 2; RAppend 3; RAppend 4]%Z (r_init 3) in
   map (r_get s) [0; 1; 2] = [Some 4; Some 3; Some 2]%Z.
 Proof. vm_compute. reflexivity. Qed.
+
+(* the generated code, run: W = 3, precision 1, history 100, reset, 1, 2, 3, 10 (the old reset() defect's witness) *)
+Example C16_ex_source_run :
+  let c := fold_left (src_avg_step ROps) [OUpdate 100; OReset; OUpdate 1; OUpdate 2; OUpdate 3; OUpdate 10]%R
+                     (src_avg_ctor2 ROps 1%R 3%Z) in
+  avg_index_ c = 1%Z /\ avg_windowSize_ c = 3%Z.
+Proof. cbn. split; reflexivity. Qed.
+Example C16_ex_source_ring :
+  let c := fold_left src_ring_step [RAppend 1; RAppend 2; RAppend 3; RAppend 4]%Z (src_ring_ctor 3%Z) in
+  map (fun k => src_ring_get c k) [0; 1; 2]%Z = [Some 4; Some 3; Some 2]%Z.
+Proof. vm_compute. reflexivity. Qed.
+
+(* the hypotheses of the binary64 theorems are satisfiable: precision 1, window 2, samples 3 and 4 *)
+Example C16_ex_binary64 :
+  let mult := o_multiplier B64Ops 1%R in
+  (2 / 2000001 <= 1 <= 1)%R /\ values_bounded mult [OUpdate 3%R; OUpdate 4%R].
+Proof.
+  cbv zeta. assert (H : (2 / 2000001 <= 1 <= 1)%R) by lra. split; [exact H|].
+  pose proof (multiplier_b64 1%R H) as [L U]. apply IZR_le in L, U.
+  repeat constructor; rewrite Rabs_pos_eq; nra.
+Qed.
